@@ -424,6 +424,11 @@ impl Check for C14 {
         }
         rep
     }
+    fn describe(&mut self, ctx: &WorkerCtx, i: u64) -> J {
+        self.prepare(ctx.tier);
+        let (idx, case) = self.case_for(ctx, i);
+        self.case_json(idx, &case)
+    }
     fn replay(&mut self, _ctx: &WorkerCtx, case: &J) -> Vec<Violation> {
         let bytes = match case.get("bytes").and_then(|b| b.as_str()).and_then(unhex) {
             Some(b) => b,
